@@ -162,15 +162,18 @@ fn exec<const B: usize, const L: usize>(m: &mut Mon, op: &str, a: &[Arg]) {
             m.nontrivial(!gen::is_zero(a[0].u()) && !gen::is_zero(a[1].u()));
             widening_bad(m, B, a[0].u(), a[1].u());
         }
-        "product" => {
-            let xs: Vec<Uint<B, L>> = a.iter().map(|x| uint(x.u())).collect();
+        "product" | "product_rep" => {
+            // product_rep: (v, w, n) stands for the n factors v, w, v, w, ...
+            let terms: Vec<&[u64]> = if op == "product_rep" { (0..a[2].us()).map(|i| a[i % 2].u()).collect() } else { a.iter().map(|x| x.u()).collect() };
+            let xs: Vec<Uint<B, L>> = terms.iter().map(|x| uint(x)).collect();
             let mut p = BigUint::one();
-            for x in a {
-                p = (p * big::big(x.u())) % big::p2(B);
+            let modulus = big::p2(B);
+            for x in &terms {
+                p = (p * big::big(x)) % &modulus;
             }
             let w = big::wrap(&p, B);
-            m.nontrivial(a.len() >= 2 && a.iter().all(|x| !gen::is_zero(x.u())));
-            m.obs(|| format!("product of {} factors = {}", a.len(), big::hex(&w)));
+            m.nontrivial(terms.len() >= 2 && terms.iter().all(|x| !gen::is_zero(x)));
+            m.obs(|| format!("product of {} factors = {}", terms.len(), big::hex(&w)));
             if let Some(v) = m.must(|| xs.iter().copied().product::<Uint<B, L>>()) {
                 m.eq_uint("product.values", &v, &w);
             }
@@ -295,6 +298,19 @@ fn workload(m: &mut Mon, bits: usize) {
     }
     m.case("product", bits, vec![]); // the empty product is one
     m.case("product", bits, vec![au(&gen::max(bits))]);
+    // long products of odd factors (the product never collapses to zero)
+    if !m.is_light() && bits <= 1088 {
+        let mut r = m.stream("c02.longproduct", bits);
+        for n in [255usize, 256, 257, 300, 513, if bits <= 256 { 4097 } else { 1025 }] {
+            m.case("product_rep", bits, vec![au(&gen::max(bits)), au(&gen::max(bits)), an(n)]);
+            let mut v = gen::hostile(&mut r, bits);
+            v[0] |= 1;
+            let mut w = gen::uniform(&mut r, bits);
+            w[0] |= 1;
+            m.case("product_rep", bits, vec![au(&v), au(&w), an(n)]);
+            m.case("product_rep", bits, vec![au(&gen::small(3, bits)), au(&gen::max(bits)), an(n)]);
+        }
+    }
     // Sparse operands aimed at addmul's zero trimming and short-window arms:
     // a = x * 2^(64 i), b = y * 2^(64 j) for all limb offsets.
     let n = gen::nlimbs(bits);
